@@ -186,6 +186,7 @@ class FunctionRun:
                 raise Infeasible()
             env.old = interp.snapshot_env(env)
             penv.old = env.old
+            entry = {k: v for k, v in env.vars.items() if not hasattr(v, "__dict__") or isinstance(v, ops.Sym)}
             outcome, val = "return", None
             try:
                 interp.exec_block(fnode.body, env)
@@ -195,7 +196,11 @@ class FunctionRun:
                 outcome, val = "raise", pr.exc
             except (Brk, Cont):
                 raise Unsupported("break/continue escaped the function body")
-            self.finish(interp, env, outcome, val)
+            # in postconditions, parameter names denote the values at entry (immutable ones); objects are live
+            penv2 = Env(mod, env, c.qualname, c.cls)
+            penv2.vars.update(entry)
+            penv2.old = env.old
+            self.finish(interp, penv2, outcome, val)
             self.completed_paths += 1
             if len(self.sample_paths) < 3:
                 self.sample_paths.append(",".join(ctx.notes[:10]))
